@@ -34,6 +34,7 @@ def uerr : UErr → SExp
 def handle (req : SExp) : SExp :=
   match req with
   | .list (.atom "lex" :: _) => (handleLex req).getD (.atom "bad-request")
+  | .list (.atom "regex" :: _) => (handleRegex req).getD (.atom "bad-request")
   | .list (.atom "parse" :: _) | .list (.atom "desugar" :: _) | .list (.atom "lexparse" :: _) =>
     (handleParse req).getD (.atom "bad-request")
   | .list (.atom "conv.type" :: _) | .list (.atom "conv.val" :: _) | .list (.atom "conv.tenv" :: _)
